@@ -134,7 +134,24 @@ structure Entry where
 takes the outcome of the external-scanner-state comparison from the log. -/
 structure Iter where
   stack : List Entry
+  /-- serialized scanner state of `last_external_token` ("" for NULL / empty state) -/
+  lastExt : String := ""
   deriving Inhabited
+
+/-- Scanner state bytes of a leaf as dumped (`x<hex>`), "" when there is none. -/
+def extOf (d : NodeData) : String :=
+  if d.ext.startsWith "x" then (d.ext.drop 1).toString else ""
+
+mutual
+  /-- `ts_subtree_last_external_token`: the state of the last leaf with external tokens. -/
+  def lastExternalExt : Tree → String
+    | .mk d [] => if d.hasExternalTokens then extOf d else ""
+    | .mk d (k :: ks) => if d.hasExternalTokens then lastExternalExtL (k :: ks) "" else ""
+  /-- last child (in order) that has external tokens wins -/
+  def lastExternalExtL : List Tree → String → String
+    | [], acc => acc
+    | k :: rest, acc => lastExternalExtL rest (if k.data.hasExternalTokens then lastExternalExt k else acc)
+end
 
 def Iter.tree? (it : Iter) : Option Tree := it.stack.head?.map (·.tree)
 def Iter.byteOffset (it : Iter) : Nat := (it.stack.head?.map (·.byteOffset)).getD uint32Max
@@ -154,7 +171,9 @@ def advanceLoop : List Entry → Nat → List Entry
 def Iter.advance (it : Iter) : Iter :=
   match it.stack with
   | [] => it
-  | last :: _ => { stack := advanceLoop it.stack (last.byteOffset + last.tree.totalBytes) }
+  | last :: _ =>
+    { stack := advanceLoop it.stack (last.byteOffset + last.tree.totalBytes)
+      lastExt := if last.tree.data.hasExternalTokens then lastExternalExt last.tree else it.lastExt }
 
 /-- `reusable_node_descend`; `none` when the current node has no children. -/
 def Iter.descend (it : Iter) : Option Iter :=
@@ -163,7 +182,7 @@ def Iter.descend (it : Iter) : Option Iter :=
   | last :: _ =>
     match last.tree.kids with
     | [] => none
-    | c :: _ => some { stack := { tree := c, childIndex := 0, byteOffset := last.byteOffset } :: it.stack }
+    | c :: _ => some { it with stack := { tree := c, childIndex := 0, byteOffset := last.byteOffset } :: it.stack }
 
 /-- `while (reusable_node_descend(self)) {}` — bounded by the height of the tree (`fuel`). -/
 def Iter.descendAll : Nat → Iter → Iter
@@ -182,9 +201,9 @@ def Iter.advancePastLeaf (it : Iter) : Iter :=
 
 /-- `reusable_node_reset`: the root itself is never a candidate. -/
 def Iter.reset (root : Tree) : Iter :=
-  match (Iter.mk [{ tree := root, childIndex := 0, byteOffset := 0 }]).descend with
+  match ({ stack := [{ tree := root, childIndex := 0, byteOffset := 0 }] } : Iter).descend with
   | some it => it
-  | none => { stack := [] }
+  | none => { stack := [], lastExt := "" }
 
 /-- Loop condition of `ts_parser__breakdown_lookahead`: a reused inner node that was built in a
 different parse state is replaced by its first child. -/
